@@ -389,7 +389,65 @@ def run_use(outer, inner, use):
         return "err" if len(inner.signals) == before else "stored-despite-error"
     if out.value_type != Signal.Type.voltage:
         return "not-voltage"
+    n_ = len(sd["vals"])
+    if len(out.times) != n_ or not np.array_equal(np.asarray(out.times), sd["t0"] + np.arange(n_) * sd["dt"]):
+        return "wrong-grid"
     return [float(v) for v in np.real(out.values)]
+
+
+def zero_gain_case(run):
+    """(spec, use, tag): gain factors that vanish EXACTLY - efficiency 0, antenna factor inf, arrival exactly along the
+    antenna axis, polarisation exactly perpendicular to it - built in an axis-aligned frame at a dyadic position so
+    that no rounding enters; crossed with all four value types and the three ways of handing a signal over"""
+    rng = run.rng
+    axes = [[1.0, 0, 0], [0, 1.0, 0], [0, 0, 1.0]]
+    i, j = rng.sample(range(3), 2)
+    sz, sx = rng.choice([1.0, -1.0, 2.0, -0.5]), rng.choice([1.0, -1.0, 4.0])
+    z = [sz * c for c in axes[i]]
+    x = [sx * c for c in axes[j]]
+    zhat = [math.copysign(1.0, sz) * c for c in axes[i]]
+    kind = rng.choice(["dip", "sysdip", "custom", "syscustom", "unit", "dip"])
+    pos = [rng.choice([0.0, 8.0, -16.0]), rng.choice([0.0, 4.0]), rng.choice([-128.0, -32.0])]
+    spec = {"kind": kind, "pos": pos, "z": z, "hist": []}
+    if kind in ("dip", "sysdip"):
+        cf = rng.uniform(150e6, 600e6)
+        spec.update(cf=cf, bw=rng.uniform(0.1, 0.9) * cf, eh=rng.choice([None, 0.5]), tape=[rng.random() for _ in range(3)])
+    else:
+        spec.update(x=x, af=rng.choice([1.0, 2.0, rng.uniform(0.2, 8.0)]), eff=rng.choice([1.0, 0.5]))
+        if kind in ("custom", "syscustom"):
+            spec["gains"] = [rng.uniform(1, 3), rng.uniform(-1, 1), rng.uniform(-0.3, 0.3), 0.0, rng.uniform(0.5, 1), 0.0,
+                             rng.uniform(-1, 1)]
+            spec["fresp"] = rng.choice([None, rng.uniform(1e8, 8e8)])
+    ways = ["eff0", "af-inf"] if kind == "unit" else ["eff0", "af-inf", "along-axis", "perp-pol", "perp-pol", "along-axis"]
+    way = rng.choice(ways)
+    direction, pol = gvec(rng), gvec(rng)
+    if way == "eff0":
+        if kind in ("dip", "sysdip"):
+            spec["hist"] = [["eff", 0.0]]
+        else:
+            spec["eff"] = rng.choice([0.0, -0.0])
+    elif way == "af-inf":
+        if kind in ("dip", "sysdip"):
+            spec["hist"] = [["af", float("inf")]]
+        else:
+            spec["af"] = float("inf")
+    elif way == "along-axis":     # the signal travels along -z_axis: it arrives from the axis direction, theta = 0
+        a = rng.choice([1.0, 2.0, 0.25])
+        direction = [-a * c for c in zhat]
+    else:                          # polarisation along another frame axis: its projection on z_axis is exactly 0
+        k = [m for m in range(3) if m != i]
+        pol = [rng.choice([1.0, -2.0]) * c for c in axes[rng.choice(k)]]
+    sd = rand_signal(run, rng.choice([8, 12, 16]))
+    op = rng.choice(["respond", "receive1", "receive"])
+    use = {"op": op, "signal": sd, "direction": direction, "force_real": rng.random() < 0.6}
+    vts = ["undefined", "voltage", "field", "power"]
+    if op == "receive":
+        use["components"] = [{"vals": [rng.gauss(0, 1) for _ in sd["vals"]], "vt": rng.choice(vts), "pol": pol}
+                             for _ in range(rng.choice([1, 2]))]
+    else:
+        use["vt"] = rng.choice(vts)
+        use["polarization"] = pol
+    return spec, use, way
 
 
 def expected_use(spec, use, fresh_inner):
@@ -680,6 +738,34 @@ def correspondence(run):
             ("perp", eps), lambda reply, exp=exp: None if (reply == "err") == (exp == "err") and reply != "bad-op"
             else "model=%s impl=%s" % (reply[:40], exp), nontrivial=False)
 
+    # --- gain factors that vanish exactly x all value types: rejection must not depend on the gain, accepted
+    #     inputs give the zero voltage signal on the input's grid
+    for zi in range(run.scale(120, 800)):
+        spec, use, way = zero_gain_case(run)
+        outer, inner = build(spec)
+        got = run_use(outer, inner, use)
+        fo, fi3 = build(spec)
+        want = expected_use(spec, use, fi3)
+        sc = use_scale(spec, use, fi3)
+        run.count("zero_gain_" + way)
+        vt_ = use.get("vt") or "+".join(c["vt"] for c in use["components"])
+        if not _close(got, want, 1e-9 * sc):
+            run.note_broken("correspondence: zero-gain case %s (%s, %s, value type %s): implementation %s, prescribed %s"
+                            % (way, spec["kind"], use["op"], vt_, str(got)[:60], str(want)[:60]))
+
+        def fnz(reply, got=got, sc=sc, strip=(use["op"] != "respond")):
+            if isinstance(got, str):
+                return None if reply == got == "err" else "model=%s impl=%s" % (reply[:60], got)
+            if reply in ("err", "bad-op"):
+                return "model=%s impl=%s" % (reply, got[:4])
+            g = fw.unfl(reply.split()[1:] if strip else reply.split())
+            if len(g) != len(got) or not all(abs(a - b) <= 1e-9 * sc for a, b in zip(g, got)):
+                return "model=%s impl=%s" % (g[:4], got[:4])
+            return None
+        add(use_request(spec, fi3, use), ("zero-gain", zi, way, spec["kind"], use["op"], vt_), fnz,
+            nontrivial=not isinstance(got, str),
+            sample={"op": "zero-gain", "way": way, "kind": spec["kind"], "use": use["op"], "vt": vt_} if zi < 2 else None)
+
     # --- FunctionSignal / Askaryan inputs REUSED across calls and antennas, results read lazily in another order
     for fi_ in range(run.scale(40, 300)):
         desc = rand_input_desc(run, buffers_ok=False)
@@ -797,6 +883,8 @@ def oracle(kind, inp):
             return oracle_reorient(inp)
         if kind == "reuse":
             return oracle_reuse(inp)
+        if kind == "zerogain":
+            return oracle_zerogain(inp)
         return oracle_plain(kind, inp)
     except Exception as e:     # noqa: BLE001
         import traceback
@@ -872,6 +960,27 @@ def oracle_reorient(inp):
             return ([ri, r1 if isinstance(r1, str) else r1[:4]], [ri, r0 if isinstance(r0, str) else r0[:4]],
                     "response changes when the axes (through set_orientation on the same object), the direction and the "
                     "polarisation are rotated together")
+    return None
+
+
+def oracle_zerogain(inp):
+    """exactly vanishing gain factor x value type: an input that is neither field nor voltage is rejected (nothing
+    stored) whatever the gains; an accepted one yields the zero signal of type voltage on the input's grid"""
+    spec, use = inp["spec"], inp["use"]
+    outer, inner = build(spec)
+    got = run_use(outer, inner, use)
+    vts = [use["vt"]] if use["op"] != "receive" else [c["vt"] for c in use["components"]]
+    if any(v not in ("field", "voltage") for v in vts):
+        if got != "err":
+            return (got if isinstance(got, str) else "accepted, values %s" % got[:3], "ValueError, nothing stored",
+                    "%s accepts value type(s) %s when the gain factor vanishes exactly (%s)" % (use["op"], vts, inp["way"]))
+        return None
+    fo, fi = build(spec)
+    want = expected_use(spec, use, fi)
+    if not _close(got, want, 1e-9 * use_scale(spec, use, fi)):
+        return (got if isinstance(got, str) else got[:4], want[:4],
+                "%s with an exactly vanishing gain factor (%s) is not the prescribed (zero) voltage signal on the "
+                "input's grid" % (use["op"], inp["way"]))
     return None
 
 
@@ -1083,6 +1192,9 @@ def gen_input(run, kind):
                 work["hist"] = work["hist"] + [rec]
             steps.append({"rec": rec, "use": rand_use(run, n_, dt_, keep)})
         return {"spec": spec, "steps": steps}
+    elif kind == "zerogain":
+        spec, use, way = zero_gain_case(run)
+        return {"spec": spec, "use": use, "way": way}
     elif kind == "reuse":
         ants = [rand_spec(run, rng.choice(["dip", "dip", "sysdip", "custom"])) for _ in range(rng.choice([1, 2, 3]))]
         for sp in ants:
@@ -1114,7 +1226,7 @@ def gen_input(run, kind):
     return inp
 
 
-ORACLES = ["rotate", "linear", "factor", "rejects", "receive", "frame", "history", "history", "reorient", "reuse", "reuse"]
+ORACLES = ["rotate", "linear", "factor", "rejects", "receive", "frame", "history", "history", "reorient", "reuse", "reuse", "zerogain", "zerogain"]
 
 
 def search(run, deep):
